@@ -249,6 +249,8 @@ ASYNCIO_ATTRS = {}
 
 
 class AsyncioModel:
+    __pyvc_module__ = "asyncio"   # members the model does not cover are values without a contract (pyvc.sx.Unknown)
+
     def __pyvc_getattr__(self, sx, attr, st, node):
         f = ASYNCIO_ATTRS.get(attr)
         if f is None:
